@@ -461,6 +461,7 @@ func (e *Engine) verifyFunction(fn *ssa.Function, c *Contract) (err error) {
 	pkg, rel := e.funcKey(fn)
 	short := pkg[strings.LastIndex(pkg, "/")+1:]
 	e.curFunc = short + "." + rel
+	watchedFunc.Store(e.curFunc)
 	e.curProps = c.Props
 	e.curContract = c
 	e.curAliases = e.localAliases(pkg+"::"+rel, fn)
